@@ -5,6 +5,8 @@ import MosnVerif.Lemmas.Tars
 import MosnVerif.Lemmas.HttpUri
 import MosnVerif.Lemmas.Relay
 import MosnVerif.Model.Http1Msg
+import MosnVerif.Lemmas.RelayStart
+import MosnVerif.Model.Http1Method
 import MosnVerif.Lemmas.Reencode
 import MosnVerif.Model.ReencodeSpec
 /-!
@@ -451,6 +453,132 @@ example : (let s := Relay.run {} [.read .down [0x61, 0x62], .read .down [0x63], 
     (s.up.sent, s.up.closed, s.up.aborted, s.down.closed)) = ([0x61, 0x62, 0x63], true, false, true) := by decide
 -- the upstream answers while the client is still open; the answer reaches the client
 example : (Relay.run {} [.read .down [1], .write .up, .read .up [7, 8], .write .down, .peerClosed .up, .write .down]).down.sent = [7, 8] := by decide
+
+/-! ## TCP relay, the peer speaks first: the read filter is registered before the read loop starts
+
+`Model/RelayStart.lean`: the set-up calls MOSN makes on a new connection are regenerated in statement order
+(`Gen/C01RelayOrder.lean`: `initializeUpstreamConnection`, `clientConnection.Connect`, `activeListener.OnNewConnection`);
+the read loop hands what it reads to the registered read filters, with none registered the bytes stay in the read buffer
+(and are dropped with it at EOF). -/
+
+/-- the regenerated call orders: on the upstream connection `AddReadFilter` comes before `Connect` (which starts the read
+loop: it calls `Start` before it notifies listeners and returns); on an accepted connection `CreateFilterChain` and
+`InitializeReadFilters` come before `Start`.  This is the statement that stops checking when a registration is moved
+behind the start of the read loop. -/
+theorem relay_filter_registered_before_read_loop :
+    RelayStart.safeOrder RelayStart.upReg RelayStart.upStart Gen.C01RelayOrder.upstreamCalls false = true ∧
+    Gen.C01RelayOrder.upstreamCalls.contains RelayStart.upStart = true ∧
+    RelayStart.connectStartsLoop = true ∧
+    RelayStart.safeOrder "CreateFilterChain" RelayStart.downStart Gen.C01RelayOrder.downstreamCalls false = true ∧
+    RelayStart.safeOrder "InitializeReadFilters" RelayStart.downStart Gen.C01RelayOrder.downstreamCalls false = true ∧
+    Gen.C01RelayOrder.downstreamCalls.contains RelayStart.downStart = true := by decide
+
+/-- **relay_peer_first_preserved**: for every list of set-up calls in which the read filter is registered before the read
+loop is started, and EVERY schedule of set-up calls, peer writes (from the moment of accept: before, between and after the
+set-up calls), peer close and read-loop iterations: nothing ever waits in the read buffer; the deliveries to the proxy,
+in order, followed by what is still in the socket are exactly what the peer has sent; at EOF everything was delivered;
+and fed to the relay model the deliveries reach the other connection's socket or its write queue, in order. -/
+theorem relay_peer_first_preserved (reg start : String) (todo : List String)
+    (ho : RelayStart.safeOrder reg start todo false = true) (evs : List RelayStart.Ev) (d : Relay.Side) :
+    let st := RelayStart.run reg start { todo := todo } evs
+    let r := Relay.run {} (RelayStart.toRelay d st)
+    st.buf = [] ∧
+    RelayStart.flat st.delivered ++ st.wire = st.peerSent ∧
+    (st.eof = true → RelayStart.flat st.delivered = st.peerSent) ∧
+    (r.get d.other).sent ++ Relay.pending (r.get d.other).wq ++ st.wire = st.peerSent := by
+  intro st r
+  have hI : RelayStart.Inv reg start st := RelayStart.run_inv reg start evs _ (RelayStart.inv_init reg start todo ho)
+  refine ⟨hI.buf_empty, hI.all, ?_, ?_⟩
+  · intro he
+    have := hI.all
+    rw [(hI.eof_done he).1] at this
+    simpa using this
+  · obtain ⟨h1, h2⟩ := RelayStart.relay_reads d st.delivered {} (by cases d <;> rfl) (by cases d <;> rfl)
+    have hD : Relay.Dir (r.get d) (r.get d.other) :=
+      Relay.run_inv _ {} ((Relay.inv_iff {}).mp Relay.inv_init) d
+    have hna : (r.get d.other).aborted = false := by
+      cases ha : (r.get d.other).aborted with
+      | false => rfl
+      | true =>
+        have := hD.abort_cause ha
+        have h2' : (r.get d.other).eofSeen = (({} : Relay.State).get d.other).eofSeen := h2
+        rw [h2'] at this
+        cases d <;> cases this
+    have hfull := hD.full hna
+    have hrecv : (r.get d).received = RelayStart.flat st.delivered := by
+      have : (r.get d).received = (({} : Relay.State).get d).received ++ RelayStart.flat st.delivered := h1
+      rw [this]; cases d <;> rfl
+    rw [hfull, hrecv]; exact hI.all
+
+/-- the shipped upstream set-up (regenerated order): every byte the upstream sent from the moment of accept is relayed -/
+theorem relay_upstream_first_preserved (evs : List RelayStart.Ev) :
+    let st := RelayStart.run RelayStart.upReg RelayStart.upStart RelayStart.upstreamInit evs
+    let r := Relay.run {} (RelayStart.toRelay .up st)
+    st.buf = [] ∧ RelayStart.flat st.delivered ++ st.wire = st.peerSent ∧
+    (st.eof = true → RelayStart.flat st.delivered = st.peerSent) ∧
+    r.down.sent ++ Relay.pending r.down.wq ++ st.wire = st.peerSent :=
+  relay_peer_first_preserved _ _ _ relay_filter_registered_before_read_loop.1 evs .up
+
+/-- the same for an accepted connection (client speaks at once, before `OnNewConnection` has finished) -/
+theorem relay_downstream_first_preserved (evs : List RelayStart.Ev) :
+    let st := RelayStart.run "CreateFilterChain" RelayStart.downStart RelayStart.downstreamInit evs
+    let r := Relay.run {} (RelayStart.toRelay .down st)
+    st.buf = [] ∧ RelayStart.flat st.delivered ++ st.wire = st.peerSent ∧
+    (st.eof = true → RelayStart.flat st.delivered = st.peerSent) ∧
+    r.up.sent ++ Relay.pending r.up.wq ++ st.wire = st.peerSent :=
+  relay_peer_first_preserved _ _ _ relay_filter_registered_before_read_loop.2.2.2.1 evs .down
+
+example : RelayStart.safeOrder "AddReadFilter" "Connect" ["AddConnectionEventListener", "AddReadFilter", "Connect"] false = true := by decide
+-- greeting "hi" sent right after accept, read as soon as the loop runs, then the upstream closes: delivered
+def exGood : RelayStart.St :=
+  RelayStart.run "AddReadFilter" "Connect" { todo := ["AddConnectionEventListener", "AddReadFilter", "Connect"] }
+    [.setup, .peerSend [0x68, 0x69], .setup, .setup, .loop, .peerClose, .loop]
+example : (exGood.delivered, exGood.eof, (Relay.run {} (RelayStart.toRelay .up exGood ++ [.write .down])).down.sent)
+    = ([[0x68, 0x69]], true, [0x68, 0x69]) := by decide
+-- negation witness: with the registration behind `Connect` a loss is reachable — the greeting is read while no filter is
+-- registered, stays in the read buffer and is dropped when the upstream closes (or waits there for ever while the upstream waits)
+example : RelayStart.safeOrder "AddReadFilter" "Connect" ["AddConnectionEventListener", "Connect", "AddReadFilter"] false = false := by decide
+def exBad (tail : List RelayStart.Ev) : RelayStart.St :=
+  RelayStart.run "AddReadFilter" "Connect" { todo := ["AddConnectionEventListener", "Connect", "AddReadFilter"] }
+    ([.setup, .setup, .peerSend [0x68, 0x69], .loop, .setup] ++ tail)
+example : ((exBad [.peerClose, .loop]).delivered, (exBad [.peerClose, .loop]).eof, (exBad [.peerClose, .loop]).peerSent)
+    = ([], true, [0x68, 0x69]) := by decide
+example : (exBad [.loop, .loop]).buf = [0x68, 0x69] ∧ (exBad [.loop, .loop]).delivered = [] := by decide
+
+/-! ## HTTP/1: the forwarded method (default, then the method variable) -/
+
+/-- **http1_method_preserved**: for every method token (known, extension, any case) and every body (none / empty /
+non-empty, however it was framed): the request the HTTP/1 client stream sends carries the method that was received.
+Over the regenerated statement sequence of `clientStream.AppendHeaders` / `FillRequestHeadersFromCtxVar` and the regenerated
+fact that `injectCtxVarFromProtocolHeaders` stores the received method. (A request line always has a non-empty method.) -/
+theorem http1_method_preserved (recv : String) (hasBody : Bool) (h : recv ≠ "") :
+    Http1Method.forwarded recv hasBody = recv := by
+  cases hasBody <;>
+    simp [Http1Method.forwarded, Http1Method.printed, Gen.C01HttpMethod.appendHeadersMethod, Gen.C01HttpMethod.fillMethod,
+      Gen.C01HttpMethod.injectsReceivedMethod, Gen.C01HttpMethod.isMethod, h]
+
+/-- whatever the header map arrives with and whether or not the headers end the stream: a set, non-empty method variable
+is what is sent -/
+theorem http1_method_variable_wins (endStream : Bool) (method m : String) (h : method ≠ "") :
+    Gen.C01HttpMethod.appendHeadersMethod endStream true method m = method := by
+  cases endStream <;> simp [Gen.C01HttpMethod.appendHeadersMethod, Gen.C01HttpMethod.fillMethod, Gen.C01HttpMethod.isMethod, h]
+
+/-- **http1_method_default**: without the variable (lookup fails, or it is empty) the default rule applies, whatever the
+header map arrived with: GET when the headers end the stream, POST when a body follows -/
+theorem http1_method_default (endStream errNil : Bool) (method m : String) (h : errNil = false ∨ method = "") :
+    Gen.C01HttpMethod.appendHeadersMethod endStream errNil method m = (if endStream then "GET" else "POST") := by
+  rcases h with h | h <;> cases endStream <;>
+    simp [Gen.C01HttpMethod.appendHeadersMethod, Gen.C01HttpMethod.fillMethod, Gen.C01HttpMethod.isMethod, h]
+
+theorem http1_method_converted (hasBody : Bool) : Http1Method.converted hasBody = Http1Method.defaultRule hasBody := by
+  cases hasBody <;> decide
+
+example : Http1Method.forwarded "GET" true = "GET" ∧ Http1Method.forwarded "PROPFIND" false = "PROPFIND" ∧
+    Http1Method.forwarded "get" true = "get" ∧ Http1Method.forwarded "HEAD" true = "HEAD" := by decide
+example : Http1Method.converted true = "POST" ∧ Http1Method.converted false = "GET" := by decide
+-- negation witness: with the default written AFTER the variable (guarded by "still GET?") a GET with a body leaves as POST
+example : Http1Method.printed (Http1Method.swapped false true "GET" "GET") = "POST" := by decide
+example : Http1Method.printed (Http1Method.swapped false true "PUT" "PUT") = "PUT" := by decide
 
 /-! ## the forwarded frame is unchanged when it is encoded AGAIN (retry) and buffers are reused in between
 
